@@ -48,7 +48,7 @@ M = [
  ("M13c-expire-without-try", ["C13"], T, '        try:\n            server.prune_all_apps(now, old)\n        except Exception as e:\n            # catch-and-log exceptions during prune, so a single error won\'t\n            # kill the loop. See #13 for details.\n            log.msg("error during prune_all_apps")\n            log.err(e)', '        server.prune_all_apps(now, old)'),
  ("M13d-sweep-skips-standalone-mailboxes", ["C13"], S, '            if row["updated"] > old:\n                new_mailboxes.add(mailbox_id)', '            if row["updated"] > old or not row["for_nameplate"]:\n                new_mailboxes.add(mailbox_id)'),
  ("M14a-mailbox-side-inserted-unconditionally", ["C14", "C10"], S, '        if not already:\n            db.execute("INSERT INTO `mailbox_sides`"', '        if True:\n            db.execute("INSERT INTO `mailbox_sides`"'),
- ("M14b-reopen-reopens-side", ["C14", "C08"], S, '        if not already:\n            db.execute("INSERT INTO `mailbox_sides`"\n                       " (`mailbox_id`, `opened`, `side`, `added`)"\n                       " VALUES(?,?,?,?)",\n                       (self._mailbox_id, True, side, when))', '        if not already:\n            db.execute("INSERT INTO `mailbox_sides`"\n                       " (`mailbox_id`, `opened`, `side`, `added`)"\n                       " VALUES(?,?,?,?)",\n                       (self._mailbox_id, True, side, when))\n        else:\n            db.execute("UPDATE `mailbox_sides` SET `opened`=? WHERE `mailbox_id`=? AND `side`=?", (True, self._mailbox_id, side))'),
+ ("M14b-reopen-reopens-side", ["C08", "C14"], S, '        if not already:\n            db.execute("INSERT INTO `mailbox_sides`"\n                       " (`mailbox_id`, `opened`, `side`, `added`)"\n                       " VALUES(?,?,?,?)",\n                       (self._mailbox_id, True, side, when))', '        if not already:\n            db.execute("INSERT INTO `mailbox_sides`"\n                       " (`mailbox_id`, `opened`, `side`, `added`)"\n                       " VALUES(?,?,?,?)",\n                       (self._mailbox_id, True, side, when))\n        else:\n            db.execute("UPDATE `mailbox_sides` SET `opened`=? WHERE `mailbox_id`=? AND `side`=?", (True, self._mailbox_id, side))'),
  ("M14c-revert-R8", ["C14"], S, '        self._touch(when)\n        db.commit()\n\n        # are any sides still open?', '        db.commit()\n\n        # are any sides still open?'),
  ("M15a-revert-R2", ["C15"], S, '            for np_sides in np_side_rows:\n                self._app._summarize_nameplate_and_store(np_sides, when,\n                                                         pruned=False)\n', ''),
  ("M15b-precedence-swapped", ["C15"], S, '        if "errory" in moods:\n            result = "errory"\n        if "scary" in moods:\n            result = "scary"', '        if "scary" in moods:\n            result = "scary"\n        if "errory" in moods:\n            result = "errory"'),
